@@ -342,6 +342,64 @@ func unrollCountedRound(pkgs []*packages.Package, overlay map[string][]byte) (ma
 			off := func(p token.Pos) int { return pkg.Fset.Position(p).Offset }
 			done := false
 			ast.Inspect(f, func(n ast.Node) bool {
+				// `for i := range a` over an array of at most eight elements (or `range N` with a constant N)
+				if rs, isRange := n.(*ast.RangeStmt); isRange && !done && rs.Tok == token.DEFINE && rs.Value == nil && rs.Key != nil {
+					key, isId := rs.Key.(*ast.Ident)
+					trips := int64(-1)
+					if tv, has := info.Types[rs.X]; has && tv.Type != nil {
+						t := tv.Type
+						if pt, isPtr := t.Underlying().(*types.Pointer); isPtr {
+							t = pt.Elem()
+						}
+						if at, isArr := t.Underlying().(*types.Array); isArr {
+							trips = at.Len()
+						} else if tv.Value != nil && tv.Value.Kind() == constant.Int {
+							trips, _ = constant.Int64Val(tv.Value)
+						}
+					}
+					if isId && key.Name != "_" && trips >= 1 && trips <= 8 {
+						obj := info.Defs[key]
+						okBody := obj != nil
+						ast.Inspect(rs.Body, func(m ast.Node) bool {
+							switch x := m.(type) {
+							case *ast.BranchStmt, *ast.LabeledStmt, *ast.DeferStmt, *ast.FuncLit, *ast.GoStmt:
+								okBody = false
+							case *ast.AssignStmt:
+								for _, l := range x.Lhs {
+									if id, ok := l.(*ast.Ident); ok && info.Uses[id] == obj {
+										okBody = false
+									}
+								}
+							case *ast.IncDecStmt:
+								if id, ok := x.X.(*ast.Ident); ok && info.Uses[id] == obj {
+									okBody = false
+								}
+							case *ast.UnaryExpr:
+								if id, ok := x.X.(*ast.Ident); ok && x.Op == token.AND && info.Uses[id] == obj {
+									okBody = false
+								}
+							}
+							return okBody
+						})
+						// the ranged expression must be free of effects (it is no longer evaluated)
+						if _, plain := rs.X.(*ast.Ident); !plain {
+							if _, lit := rs.X.(*ast.BasicLit); !lit {
+								okBody = false
+							}
+						}
+						if okBody {
+							body := string(src[off(rs.Body.Pos()):off(rs.Body.End())])
+							var b strings.Builder
+							for t := int64(0); t < trips; t++ {
+								fmt.Fprintf(&b, "{\nconst %s = %d\n%s\n}\n", key.Name, t, body)
+							}
+							edits[fname] = append(edits[fname], srcEdit{off(rs.Pos()), off(rs.End()), b.String()})
+							log = append(log, fmt.Sprintf("range over %d indices (%s) unrolled in %s", trips, key.Name, fname[strings.LastIndex(fname, "/")+1:]))
+							done = true
+							return false
+						}
+					}
+				}
 				fs, ok := n.(*ast.ForStmt)
 				if !ok || done {
 					return !done
